@@ -12,7 +12,7 @@ import numpy as np
 
 ID = "C04"
 SHARDS = {"quick": 8, "thorough": 16}
-BUDGET = {"quick": 45, "thorough": 420}
+BUDGET = {"quick": 300, "thorough": 1800}
 RULE = ("series of length 2..500 (random, lognormal / normal / lattice values), "
         "x bias types x corr types x stat x transforms {Identity, Log, BoxCox2, "
         "Reciprocal, Sinh} at random admissible parameters x excludenull with "
